@@ -52,6 +52,8 @@ theorem step_opt (s : St) (e : Ev) : (step s e).1.opt = s.opt := by
   cases e with
   | reach r => simp only [step]; split <;> simp [setMode_opt]
   | openStream id i c => simp only [step]; split <;> rfl
+  | negotiate id c => simp only [step]; split <;> rfl
+  | deliver id => simp only [step]; split <;> rfl
   | request id =>
     simp only [step]
     split
@@ -64,6 +66,8 @@ theorem step_mode_nonreach (s : St) (e : Ev) (h : ∀ r, e ≠ .reach r) : (step
   cases e with
   | reach r => exact absurd rfl (h r)
   | openStream id i c => simp only [step]; split <;> rfl
+  | negotiate id c => simp only [step]; split <;> rfl
+  | deliver id => simp only [step]; split <;> rfl
   | request id =>
     simp only [step]
     split
@@ -103,6 +107,16 @@ theorem mode_determined_by_last_event (opt : ModeOpt) (ha : isAuto opt = true) (
       cases lastReach es with
       | none => simp only; exact step_mode_nonreach s _ (by intro r h; cases h)
       | some r' => rfl
+    | negotiate id c =>
+      simp only [lastReach]
+      cases lastReach es with
+      | none => simp only; exact step_mode_nonreach s _ (by intro r h; cases h)
+      | some r' => rfl
+    | deliver id =>
+      simp only [lastReach]
+      cases lastReach es with
+      | none => simp only; exact step_mode_nonreach s _ (by intro r h; cases h)
+      | some r' => rfl
 
 /-- fixed modes never change, whatever events arrive -/
 theorem fixed_modes_never_change (opt : ModeOpt) (hf : isAuto opt = false) (evs : List Ev) :
@@ -117,13 +131,17 @@ theorem fixed_modes_never_change (opt : ModeOpt) (hf : isAuto opt = false) (evs 
     cases e with
     | reach r => simp [step, hs, hf]
     | openStream id i c => exact step_mode_nonreach s _ (by intro r h; cases h)
+    | negotiate id c => exact step_mode_nonreach s _ (by intro r h; cases h)
+    | deliver id => exact step_mode_nonreach s _ (by intro r h; cases h)
     | request id => exact step_mode_nonreach s _ (by intro r h; cases h)
 
 /-! ### serving -/
 
-/-- handlers are registered exactly in server mode, and in client mode no inbound DHT stream is open -/
+/-- handlers are registered exactly in server mode, and in client mode no inbound DHT stream that has reached its handler
+    is open (a stream still between negotiation and handler is not one yet; it dies when it gets there) -/
 def Inv (s : St) : Prop :=
-  (s.handlers = true ↔ s.mode = .server) ∧ (s.mode = .client → ∀ st ∈ s.streams, st.inbound = true → st.alive = false)
+  (s.handlers = true ↔ s.mode = .server) ∧
+  (s.mode = .client → ∀ st ∈ s.streams, st.inbound = true → st.pending = false → st.alive = false)
 
 theorem inv_init (opt : ModeOpt) : Inv (init opt) := by
   cases opt <;> simp [Inv, init, initial]
@@ -143,12 +161,13 @@ theorem inv_step (s : St) (e : Ev) (h : Inv s) : Inv (step s e).1 := by
           intro hc; cases hc
         | client =>
           refine ⟨by simp, ?_⟩
-          intro _ st hst hin
+          intro _ st hst hin hp
           simp only [List.mem_map] at hst
           obtain ⟨x, _, rfl⟩ := hst
-          by_cases hx : x.inbound = true
+          by_cases hx : (x.inbound && !x.pending) = true
           · simp [hx]
-          · simp only [hx, Bool.false_eq_true, ↓reduceIte] at hin
+          · simp only [hx, Bool.false_eq_true, ↓reduceIte] at hin hp
+            simp [hin, hp] at hx
     · exact ⟨h1, h2⟩
   | openStream id i c =>
     simp only [step]
@@ -156,10 +175,10 @@ theorem inv_step (s : St) (e : Ev) (h : Inv s) : Inv (step s e).1 := by
     · exact ⟨h1, h2⟩
     · rename_i hc
       refine ⟨h1, ?_⟩
-      intro hm st hst hin
+      intro hm st hst hin hp
       simp only [List.mem_append, List.mem_singleton] at hst
       rcases hst with hst | rfl
-      · exact h2 hm st hst hin
+      · exact h2 hm st hst hin hp
       · -- an inbound stream is only opened while the handler is registered, i.e. in server mode
         simp only at hin
         have : s.handlers = true := by
@@ -167,6 +186,29 @@ theorem inv_step (s : St) (e : Ev) (h : Inv s) : Inv (step s e).1 := by
           exact hc hin
         have := h1.1 this
         rw [hm] at this; cases this
+  | negotiate id c =>
+    simp only [step]
+    split
+    · exact ⟨h1, h2⟩
+    · refine ⟨h1, ?_⟩
+      intro hm st hst hin hp
+      simp only [List.mem_append, List.mem_singleton] at hst
+      rcases hst with hst | rfl
+      · exact h2 hm st hst hin hp
+      · simp at hp
+  | deliver id =>
+    simp only [step]
+    split
+    · refine ⟨h1, ?_⟩
+      intro hm st hst hin hp
+      simp only [List.mem_map] at hst
+      obtain ⟨x, hx, rfl⟩ := hst
+      by_cases hxi : (x.id == id && x.pending) = true
+      · simp only [hxi, ↓reduceIte]
+        rw [show s.mode = Mode.client from hm]; simp
+      · simp only [hxi, Bool.false_eq_true, ↓reduceIte] at hin hp ⊢
+        exact h2 hm x hx hin hp
+    · exact ⟨h1, h2⟩
   | request id =>
     simp only [step]
     split
@@ -176,13 +218,13 @@ theorem inv_step (s : St) (e : Ev) (h : Inv s) : Inv (step s e).1 := by
       · split
         · exact ⟨h1, h2⟩
         · refine ⟨h1, ?_⟩
-          intro hm st hst hin
+          intro hm st hst hin hp
           simp only [List.mem_map] at hst
           obtain ⟨x, hx, rfl⟩ := hst
           by_cases hxi : x.id == id
           · simp [hxi]
-          · simp only [hxi, Bool.false_eq_true, ↓reduceIte] at hin ⊢
-            exact h2 hm x hx hin
+          · simp only [hxi, Bool.false_eq_true, ↓reduceIte] at hin hp ⊢
+            exact h2 hm x hx hin hp
 
 theorem inv_run (s : St) (evs : List Ev) (h : Inv s) : Inv (run s evs) := by
   induction evs generalizing s with
@@ -190,12 +232,13 @@ theorem inv_run (s : St) (evs : List Ev) (h : Inv s) : Inv (run s evs) := by
   | cons e es ih => exact ih _ (inv_step s e h)
 
 /-- A node in client mode handles no inbound DHT stream: after any history that leaves it in client mode
-    there is no registered handler, no open inbound DHT stream (those open at the switch were reset), a
-    new inbound stream is refused and no request on any stream is answered. -/
+    there is no registered handler, no open inbound DHT stream that has reached its handler (those open at the switch
+    were reset, one that was still being negotiated at the switch is reset when it reaches the handler), a new
+    inbound stream is refused — at negotiation too — and no request on any stream is answered. -/
 theorem client_handles_nothing (opt : ModeOpt) (evs : List Ev) (hm : (run (init opt) evs).mode = .client) :
     let s := run (init opt) evs
-    s.handlers = false ∧ (∀ st ∈ s.streams, st.inbound = true → st.alive = false) ∧
-    (∀ id c, (step s (.openStream id true c)).2 = .nohandler) ∧
+    s.handlers = false ∧ (∀ st ∈ s.streams, st.inbound = true → st.pending = false → st.alive = false) ∧
+    (∀ id c, (step s (.openStream id true c)).2 = .nohandler ∧ (step s (.negotiate id c)).2 = .nohandler) ∧
     (∀ id, (step s (.request id)).2 ≠ .answered) := by
   intro s
   have hinv : Inv s := inv_run _ evs (inv_init opt)
@@ -217,13 +260,13 @@ theorem client_handles_nothing (opt : ModeOpt) (evs : List Ev) (hm : (run (init 
 theorem server_handles (opt : ModeOpt) (evs : List Ev) (hm : (run (init opt) evs).mode = .server) :
     let s := run (init opt) evs
     (∀ id c, (step s (.openStream id true c)).2 = .opened) ∧
-    (∀ st ∈ s.streams, st.alive = true → st.inbound = true →
+    (∀ st ∈ s.streams, st.alive = true → st.inbound = true → st.pending = false →
       (∀ x ∈ s.streams, x.id = st.id → x = st) → (step s (.request st.id)).2 = .answered) := by
   intro s
   have hinv : Inv s := inv_run _ evs (inv_init opt)
   have hh : s.handlers = true := hinv.1.2 hm
   refine ⟨by intro id c; simp [step, hh], ?_⟩
-  intro st hst ha hi huniq
+  intro st hst ha hi hp huniq
   simp only [step]
   cases hf : s.streams.find? (·.id == st.id) with
   | none => have := List.find?_eq_none.1 hf st hst; simp at this
@@ -232,7 +275,7 @@ theorem server_handles (opt : ModeOpt) (evs : List Ev) (hm : (run (init opt) evs
     have hxid : x.id = st.id := by simpa using List.find?_some hf
     have := huniq x hx hxid
     subst this
-    simp [ha, hi, show s.mode = Mode.server from hm]
+    simp [ha, hi, hp, show s.mode = Mode.server from hm]
 
 /-! non-vacuity: a demotion with an open inbound stream on an outbound connection -/
 /-- … and that last part needs no history at all: in *any* state whose mode is client — also one holding a stream that
@@ -249,7 +292,10 @@ theorem client_answers_no_request (s : St) (hm : s.mode = .client) (id : Nat) : 
 def exEvs : List Ev := [.reach .pub, .openStream 1 true false, .request 1, .reach .priv, .request 1, .reach .unknown]
 example : (run (init .auto) exEvs).mode = .client := by decide
 example : (run (init .auto) (exEvs.take 3)).mode = .server := by decide
-example : (run (init .auto) (exEvs.take 4)).streams = [⟨1, true, false, false⟩] := by decide
+example : (run (init .auto) (exEvs.take 4)).streams = [⟨1, true, false, false, false⟩] := by decide
+/-- a stream negotiated in server mode and delivered after the switch to client mode is dead on arrival -/
+example : (run (init .auto) [.reach .pub, .negotiate 1 true, .reach .priv, .deliver 1]).streams = [⟨1, true, true, false, false⟩] ∧
+    (step (run (init .auto) [.reach .pub, .negotiate 1 true, .reach .priv, .deliver 1]) (.request 1)).2 = .dead := by decide
 example : (run (init .autoServer) exEvs).mode = .server := by decide
 
 end KadDHT.C13
